@@ -9,6 +9,7 @@ import (
 	"runtime/debug"
 
 	"github.com/cnotch/ipchub/av/codec"
+	"github.com/cnotch/ipchub/utils/verifhook"
 	"github.com/cnotch/queue"
 	"github.com/cnotch/xlog"
 )
@@ -70,11 +71,14 @@ func (muxer *Muxer) Close() error {
 	}
 
 	muxer.closed = true
+	verifhook.Point("tsmuxer.close.flagged", muxer)
 	muxer.recvQueue.Signal()
 	return nil
 }
 
 func (muxer *Muxer) process(vp, ap Packetizer) {
+	verifhook.Point("tsmuxer.enter", muxer)
+	defer verifhook.Point("tsmuxer.exit", muxer)
 	defer func() {
 		defer func() { // 避免 handler 再 panic
 			recover()
@@ -89,6 +93,7 @@ func (muxer *Muxer) process(vp, ap Packetizer) {
 	}()
 
 	for !muxer.closed {
+		verifhook.Point("tsmuxer.beforePop", muxer)
 		f := muxer.recvQueue.Pop()
 		if f == nil {
 			if !muxer.closed {
